@@ -518,7 +518,15 @@ def exact_simulators(mk, sim, cfg, prog):
     if cfg == "lazy" and any(ctr and len(ctr) > 1 for _, _, _, ctr, _ in p):
         mk.raises("multi-controlled gate with contract=False is rejected", lambda: apply_program(mk, circ, p), (ValueError,))
         return
-    apply_program(mk, circ, p)
+    try:
+        apply_program(mk, circ, p)
+    except ValueError as e:
+        if sim == "Circuit" and cfg in ("split-gate", "swap-split-gate") and "invalid for >2 sites" in str(e):
+            # the gate-splitting modes are defined for two-site gates only: a rejection, never a wrong state
+            mk.note(f"contract={cfg!r}: gate on more than two sites rejected by raising ValueError")
+            mk.same("gate on more than two sites with a gate-splitting mode: rejected by raising", True, True)
+            return
+        raise
     v = ref_state(mk, p, N, basis0(mk, N))
     mk.same("gate record length", circ.num_gates, len(p))
     # light-cone based queries assume unitary gates: raw symbolic matrices are not unitary
